@@ -396,3 +396,7 @@ def run(ctx):
     # ---- R05.9 "stops it": the stop reaches the whole command - wrapper table owned by C18
     ctx.rule("R05.9", "restart/signal modes act on the command the user sees: the process-group / session wrappers are applied as configured")
     ctx.borrow("C18", ["R18.3"], "R05.9", "a grouped command is spawned as a group leader, so stop, kill and wait reach its children too")
+
+    # ---- R05.10 restart mode: the forced stop at grace expiry is followed by the queued Start (timer cleared when it fires; owned by C06)
+    ctx.rule("R05.10", "a restart whose grace has expired (or is zero) goes on to its Start: the expired timer is cleared when it is turned into the forced stop")
+    ctx.borrow("C06", ["R06.3"], "R05.10", "recv gating: forced control only after expiry and with the timer cleared on both routes")
